@@ -17,6 +17,7 @@ CFG = dict(
     find_bad_from="find_bad_from",
     rigs=[dict(test="TestC08", timeout_quick=300, timeout_thorough=900),
           dict(test="TestC08Sys", timeout_quick=300, timeout_thorough=900),
+          dict(test="TestC08Seq", timeout_quick=300, timeout_thorough=300),
           dict(test="TestGenEquivC08", timeout_quick=300, timeout_thorough=300)],
     technique="machine-checked proof (Rocq/Coq 8.16.1) of theorems about a hand-written Gallina model + correspondence check on every run; "
               "for parseGrpcTimeout and the deadline branch of headersFromContext additionally: model regenerated from source by "
@@ -29,7 +30,8 @@ CFG = dict(
          "header (ms boundaries 1ms..10^11ms +-1ns, expired, random), header lists for the server-side scan; end to end in bubbles "
          "(virtual clock): {unary, client-, server-, bidi stream} x the same remaining times (-1h .. 10^4 h and beyond) x transit "
          "{0, 2.5 ms, 3 s} x caller metadata {none, ordinary, reserved key}: handler ctx.Deadline() compared exactly with sys_deadline; "
-         "no caller deadline; header lists and the timeout-value inputs (all grammar values of the grid, every 5th other one; 4 key "
+         "sequences of 2..3 calls (unary / stream mix, one or two client connections) under ONE deadline context with 1 ms .. 1 h of "
+         "virtual time between them; no caller deadline; header lists and the timeout-value inputs (all grammar values of the grid, every 5th other one; 4 key "
          "spellings) put on the wire by a scripted peer for a unary and a streaming method of a real server; "
          "non-trivial = every case (each is a distinct input by its description hash)",
     assumptions=["strconv.ParseInt, fmt.Sprintf(%d), context.WithTimeout and the clock are Go's (modelled, validated differentially)",
